@@ -4931,3 +4931,12 @@ impl IceTransport {
         v
     }
 }
+
+#[cfg(rustrtc_verif)]
+impl IceTransport {
+    /// `IceTransportRunner::run_tcp_listen_loop` on a harness listener (the accept loop of a passive ICE-TCP
+    /// candidate); runs until the transport is closed / failed or the future is dropped.
+    pub async fn verif_run_tcp_listen_loop(&self, listener: Arc<TcpListener>) {
+        IceTransportRunner::run_tcp_listen_loop(listener, self.inner.clone()).await;
+    }
+}
